@@ -3,6 +3,7 @@ package main
 import (
 	"fmt"
 	"strings"
+	"time"
 
 	"github.com/vmware/go-ipfix/pkg/collector"
 	"github.com/vmware/go-ipfix/pkg/entities"
@@ -22,6 +23,9 @@ type colClient struct {
 	segments   [][]byte // what the client writes, one Write per segment (tcp) / one datagram each (udp)
 	messages   [][]byte // the messages the byte stream consists of (for the expectation)
 	closeAtEnd bool
+	// pause: between segments the sender waits until the collector has consumed what was sent, lets one
+	// second pass, and waits again (a slow sender; a read deadline inside the collector would expire)
+	pause bool
 	// for tcp: the stream may end mid-message (abrupt close); messages then lists only complete ones + the bad/partial tail is not expected
 }
 
@@ -30,6 +34,9 @@ type colOpts struct {
 	segmentReads bool
 	stopper      bool // a thread calls Stop() at an arbitrary point
 	threeWay     bool
+	// oracle, when set, replaces the per-client delivery oracle (scenarios whose clients share an
+	// observation domain cannot be judged client by client)
+	oracle func(delivered []*entities.Message)
 }
 
 const colAddr = "127.0.0.1:4739"
@@ -100,7 +107,12 @@ func colScenario(name string, clients []colClient, o colOpts) *vsched.Scenario {
 				if o.segmentReads && fc.Peer() != nil {
 					fc.Peer().SegmentReads = true
 				}
-				for _, s := range clients[i].segments {
+				for si, s := range clients[i].segments {
+					if clients[i].pause && si > 0 {
+						vsched.Quiesce()
+						vsched.Advance(time.Second)
+						vsched.Quiesce()
+					}
 					if _, err := c.Write(s); err != nil {
 						break
 					}
@@ -126,7 +138,13 @@ func colScenario(name string, clients []colClient, o colOpts) *vsched.Scenario {
 			byDomain[m.GetObsDomainID()] = append(byDomain[m.GetObsDomainID()], m)
 		}
 		var obs []string
+		if o.oracle != nil {
+			o.oracle(delivered)
+		}
 		for i, c := range clients {
+			if o.oracle != nil {
+				break
+			}
 			exp, hadBad := colExpected(c, o.proto)
 			got := byDomain[c.domain]
 			if len(got) > len(exp) {
@@ -203,7 +221,7 @@ func colLeakAtStop() {
 
 // standard streams
 var (
-	colTA = []refcodec.FieldSpec{{ID: 7, Len: 2}, {ID: 4, Len: 1}, {ID: 82, Len: 65535}}
+	colTA = []refcodec.FieldSpec{{ID: 7, Len: 2}, {ID: 4, Len: 1}, {ID: 82, Len: 65535}, {ID: 313, Len: 65535}}
 )
 
 func colStream(domain uint32, ndata int) [][]byte {
@@ -212,8 +230,8 @@ func colStream(domain uint32, ndata int) [][]byte {
 	msgs := [][]byte{refcodec.TemplateMsg(h, t)}
 	for i := 0; i < ndata; i++ {
 		h.Seq = uint32(i + 1)
-		rec := [][]byte{{byte(domain), byte(i)}, {byte(6 + i)}, []byte(fmt.Sprintf("if%d-%d", domain, i))}
-		rec2 := [][]byte{{0xaa, byte(i)}, {17}, []byte("x")}
+		rec := [][]byte{{byte(domain), byte(i)}, {byte(6 + i)}, []byte(fmt.Sprintf("if%d-%d", domain, i)), {0xd0 + byte(i), byte(domain), 0xfe, byte(i)}}
+		rec2 := [][]byte{{0xaa, byte(i)}, {17}, []byte("x"), {byte(i), 0x0c}}
 		msgs = append(msgs, refcodec.DataMsg(h, t, [][][]byte{rec, rec2}))
 	}
 	return msgs
